@@ -251,6 +251,15 @@ def run_real(case, res):
             idf = (outd / "out.idf").exists()
             if (code == 0) != idf:
                 res["violations"].append(core.viol("idf_exit_status_wrong", dict(case), observed=code, msg=f"--convert IDF exits {code}, out.idf written: {idf}", mode="convert-IDF"))
+        if case.get("unwritable"):
+            # the design succeeds but the output directory cannot be created (its parent is a regular file): no output -> non-zero
+            res["evals"] += 1
+            blocker = tmp / "a_regular_file"
+            blocker.write_text("x")
+            code, _, _ = cli([f, blocker / "out"], block_design=False)
+            if code == 0:
+                res["violations"].append(core.viol("zero_exit_without_output", dict(case), observed=code, msg=f"valid {case['method']}/{case['pipe']} run with an output path that cannot be created exits 0 (nothing written)", mode="unwritable-output"))
+            res.outcome("unwritable_output_runs")
         res["nontrivial"] += 1
         res["sample"] = dict(case)
     finally:
@@ -287,7 +296,7 @@ def main(run: core.Run, only=None):
             cases.append({"file": name, "lo": lo, "hi": min(n, lo + step)})
     run.drive(cases, family="corruptions")
     run.drive([{"kind": "modes", "file": name} for name in use], family="option-modes")
-    real = [{"kind": "real", "method": "nearsquare", "pipe": "single"}, {"kind": "real", "method": "rectangle", "pipe": "coaxial", "subprocess": True}]
+    real = [{"kind": "real", "method": "nearsquare", "pipe": "single", "unwritable": True}, {"kind": "real", "method": "rectangle", "pipe": "coaxial", "subprocess": True}]
     if not quick:
         real += [{"kind": "real", "method": "birectangle", "pipe": "double_series"}, {"kind": "real", "method": "rowwise", "pipe": "single", "subprocess": True},
                  {"kind": "real", "method": "bizoned", "pipe": "single"}, {"kind": "real", "method": "constrained", "pipe": "double_parallel"}]
